@@ -796,45 +796,24 @@ def blocks(data, min_len=2, max_len=np.inf, wrap=False, digits=None, only_nonzer
         if only_nonzero and not bool(data[0]):
             return blocks
 
-        # if all values are True or False we can exit
-        if len(blocks) == 1 and len(blocks[0]) == len(data):
+        # a single run covering the whole array has nothing to wrap onto
+        if len(infl_len) == 1:
             return blocks
 
-        # so now first point equals last point, so the cases are:
-        # - first and last point are in a block: combine two blocks
-        # - first OR last point are in block: add other point to block
-        # - neither are in a block: check if combined is eligible block
-
-        # first point is in a block
-        first = len(blocks) > 0 and blocks[0][0] == 0
-        # last point is in a block
-        last = len(blocks) > 0 and blocks[-1][-1] == (len(data) - 1)
-
-        # CASE: first and last point are BOTH in block: combine blocks
-        if first and last:
-            blocks[0] = np.append(blocks[-1], blocks[0])
+        # now the first point equals the last point, so the first and
+        # last runs are two pieces of ONE circular run: neither piece
+        # is a block by itself so remove them if they were included
+        if len(blocks) > 0 and blocks[-1][-1] == (len(data) - 1):
             blocks.pop()
-        else:
-            # combined length
-            combined = infl_len[0] + infl_len[-1]
-            # exit if lengths aren't OK
-            if combined < min_len or combined > max_len:
-                return blocks
-            # new block combines both ends
-            new_block = np.append(
-                np.arange(infl[-2], infl[-1]), np.arange(infl[0], infl[1])
+        if len(blocks) > 0 and blocks[0][0] == 0:
+            blocks.pop(0)
+
+        # the joined run has to pass the same length check as any other
+        combined = infl_len[0] + infl_len[-1]
+        if combined >= min_len and combined <= max_len:
+            blocks.append(
+                np.append(np.arange(infl[-2], infl[-1]), np.arange(infl[0], infl[1]))
             )
-            # we are in a first OR last situation now
-            if first:
-                # first was already in a block so replace it with combined
-                blocks[0] = new_block
-            elif last:
-                # last was already in a block so replace with superset
-                blocks[-1] = new_block
-            else:
-                # both are false
-                # combined length generated new block
-                blocks.append(new_block)
 
     return blocks
 
